@@ -68,6 +68,7 @@ class JobContext(object):
         self.sym = None
         self.pending = []
         self.scratch = []
+        self.hashseeds = 0
 
     # -- known findings ------------------------------------------------------------------------
     def known_for(self, label):
@@ -200,6 +201,8 @@ class JobContext(object):
             "property": self.prop, "module": self.module, "harness": self.harness, "harness_dir": HARNESS_DIR,
             "sys_path": [REPO, HERE], "params": self.params, "inputs": inputs, "label": label,
         }
+        if self.hashseeds:
+            rep["hashseeds"] = list(range(self.hashseeds))
         d = os.path.join(REPLAY_DIR, self.prop)
         os.makedirs(d, exist_ok=True)
         path = os.path.join(d, "%s-%s.json" % (self.harness, _digest([self.params, inputs, label])))
@@ -350,18 +353,35 @@ def _short(t):
 
 
 def replay_file(path):
-    env = dict(os.environ)
-    env["PYTHONPATH"] = REPO
-    env.pop("PYTHONHASHSEED", None)
+    """run the recorded counterexample natively in a fresh interpreter.  When the replay file asks for it (checks about
+    hash-seed independence) the run is repeated under several PYTHONHASHSEED values; one failing run reproduces it."""
     try:
-        p = subprocess.run([NATIVE_PY, os.path.join(HERE, "psx", "native.py"), path], capture_output=True, text=True,
-                           env=env, timeout=300, cwd="/")
-    except subprocess.TimeoutExpired:
-        return {"reproduced": False, "error": "native replay timed out"}
-    try:
-        return json.loads(p.stdout)
+        with open(path) as f:
+            seeds = json.load(f).get("hashseeds") or [None]
     except Exception:
-        return {"reproduced": False, "error": "native replay failed: %s %s" % (p.stdout[-500:], p.stderr[-1500:])}
+        seeds = [None]
+    res = {"reproduced": False, "error": "no run"}
+    for hs in seeds:
+        env = dict(os.environ)
+        env["PYTHONPATH"] = REPO
+        env.pop("PYTHONHASHSEED", None)
+        if hs is not None:
+            env["PYTHONHASHSEED"] = str(hs)
+        try:
+            p = subprocess.run([NATIVE_PY, os.path.join(HERE, "psx", "native.py"), path], capture_output=True, text=True,
+                               env=env, timeout=300, cwd="/")
+        except subprocess.TimeoutExpired:
+            res = {"reproduced": False, "error": "native replay timed out"}
+            continue
+        try:
+            res = json.loads(p.stdout)
+        except Exception:
+            res = {"reproduced": False, "error": "native replay failed: %s %s" % (p.stdout[-500:], p.stderr[-1500:])}
+        if hs is not None:
+            res["hashseed"] = hs
+        if res.get("reproduced"):
+            return res
+    return res
 
 
 # ---------------------------------------------------------------------------------------------------
@@ -396,6 +416,7 @@ def run_job(spec):
         ctx = JobContext(prop, modname, job["harness"], job.get("params", {}), load_known(prop),
                          validate_every=job.get("validate_every", 25))
         ctx.I = I
+        ctx.hashseeds = job.get("replay_hashseeds", 0)
         I.flush_hook = ctx.flush
         sym = api.Sym(I, ctx)
         ctx.sym = sym
